@@ -60,6 +60,10 @@ package stringclassifier
 //@   modifies nothing
 //@   props C13
 //@
+//@ func literalRegexp
+//@   modifies nothing
+//@   props C13
+//@
 //@ func (*Classifier).AddValue
 //@   requires wfC(c) && held(&c.muValues) == 0
 //@   ensures wfC(c) && held(&c.muValues) == 0
@@ -88,7 +92,7 @@ package stringclassifier
 //@ spec wfMatcher(m *matcher) bool = m != nil && m.unknown != nil && wfSS(m.unknown) && okToks(m.unknown.Tokens, m.normUnknown)
 //@ lockinv matcher.mu = matcherInv
 //@
-//@ spec okKnown(k *knownValue) bool = k != nil && k.reValue != nil && (k.set != nil ==> wfSS(k.set))
+//@ spec okKnown(k *knownValue) bool = k != nil && (k.set != nil ==> wfSS(k.set))
 //@ spec valuesInv(c *Classifier) bool = c.values != nil && (forall k string :: (k in c.values) ==> okKnown(c.values[k]))
 //@ lockinv Classifier.muValues = valuesInv
 //@
